@@ -7,6 +7,10 @@
 
 package proxy
 
+import (
+	"github.com/datastax/go-cassandra-native-protocol/primitive"
+)
+
 // ---------------------------------------------------------------------------------------------
 // C05: the documented default retry policy (README / doc comments of RetryPolicy), as a table.
 // ---------------------------------------------------------------------------------------------
@@ -58,3 +62,114 @@ func verifSpecErrorResponse(isReadFailure, isWriteFailure bool) RetryDecision {
 //@ func proxy.defaultRetryPolicy.OnUnavailable [C05]
 //@   ensures  result == verifSpecUnavailable(retryCount)
 //@   modifies nothing
+
+// ---------------------------------------------------------------------------------------------
+// C20: configuration values are honoured as documented, bad configurations refused
+// ---------------------------------------------------------------------------------------------
+
+// verifSpecVersionKnown / verifSpecVersion: the documented spellings (README: "options: v3, v4, v5,
+// DSEv1, DSEv2", plus the bare protocol numbers), case-insensitively; the argument is lower-cased.
+func verifSpecVersionKnown(lowered string) bool {
+	switch lowered {
+	case "3", "v3", "4", "v4", "5", "v5", "65", "dsev1", "66", "dsev2":
+		return true
+	}
+	return false
+}
+
+func verifSpecVersion(lowered string) primitive.ProtocolVersion {
+	switch lowered {
+	case "3", "v3":
+		return primitive.ProtocolVersion3
+	case "4", "v4":
+		return primitive.ProtocolVersion4
+	case "5", "v5":
+		return primitive.ProtocolVersion5
+	case "65", "dsev1":
+		return primitive.ProtocolVersionDse1
+	case "66", "dsev2":
+		return primitive.ProtocolVersionDse2
+	}
+	return 0
+}
+
+//@ func proxy.parseProtocolVersion [C20]
+//@   replay verifReplayParseProtocolVersion(s)
+//@   ensures known: ok == verifSpecVersionKnown(strings.ToLower(s))
+//@   ensures value: ok ==> version == verifSpecVersion(strings.ToLower(s))
+//@   modifies nothing
+
+// The eleven consistency level names of the native protocol, case-insensitively.
+func verifSpecCLKnown(lowered string) bool {
+	switch lowered {
+	case "any", "one", "two", "three", "quorum", "all", "local_quorum", "each_quorum", "serial", "local_serial", "local_one":
+		return true
+	}
+	return false
+}
+
+func verifSpecCL(lowered string) primitive.ConsistencyLevel {
+	switch lowered {
+	case "any":
+		return primitive.ConsistencyLevelAny
+	case "one":
+		return primitive.ConsistencyLevelOne
+	case "two":
+		return primitive.ConsistencyLevelTwo
+	case "three":
+		return primitive.ConsistencyLevelThree
+	case "quorum":
+		return primitive.ConsistencyLevelQuorum
+	case "all":
+		return primitive.ConsistencyLevelAll
+	case "local_quorum":
+		return primitive.ConsistencyLevelLocalQuorum
+	case "each_quorum":
+		return primitive.ConsistencyLevelEachQuorum
+	case "serial":
+		return primitive.ConsistencyLevelSerial
+	case "local_serial":
+		return primitive.ConsistencyLevelLocalSerial
+	case "local_one":
+		return primitive.ConsistencyLevelLocalOne
+	}
+	return 0
+}
+
+//@ func proxy.clWrapper.UnmarshalText [C20]
+//@   requires c != nil
+//@   ensures known: (result == nil) == verifSpecCLKnown(strings.ToLower(old(string(text))))
+//@   ensures value: result == nil ==> c.ConsistencyLevel == verifSpecCL(strings.ToLower(old(string(text))))
+//@   ensures unknown-unchanged: result != nil ==> c.ConsistencyLevel == old(c.ConsistencyLevel)
+//@   modifies c.ConsistencyLevel
+
+// Start-up: Run may reach listenAndServe only with a consistent configuration, and never after it
+// has reported a configuration error ($configError is set by every kong Errorf call).
+//@ ghostvar $configError bool
+
+//@ func proxy.runConfig.listenAndServe [C20]
+//@   trusted
+//@   requires consistent-timeouts: c.HeartbeatInterval < c.IdleTimeout
+//@   requires enough-conns: c.NumConns >= 1
+//@   requires no-error-reported: !$configError
+//@   requires versions-ordered: p != nil && p.config.Version <= p.config.MaxVersion
+//@   requires has-backend: p.config.Resolver != nil
+//@   ensures $configError == old($configError)
+//@   modifies *
+
+// Helpers called by Run. Those marked trusted are assumed not to touch the configuration or the
+// error flag (they read files / build fresh objects); they are listed in the evidence as assumed.
+//@ func proxy.NewProxy [C20]
+//@   ensures result != nil && fresh(result)
+//@   ensures result.config.Version == ite(config.Version == 0, primitive.ProtocolVersion4, config.Version)
+//@   ensures result.config.MaxVersion == ite(config.MaxVersion == 0, primitive.ProtocolVersion4, config.MaxVersion)
+//@   ensures result.config.Resolver == config.Resolver
+//@   modifies nothing
+
+//@ func proxy.maybeAddPort
+//@   trusted
+//@   modifies nothing
+
+//@ func proxy.Run [C20]
+//@   requires !$configError
+//@   ensures refused: $configError ==> result != 0
